@@ -216,12 +216,15 @@ def one_builder(toks):
 
 
 def one_history(hist):
+    """replay one interleaving of modifications and dictionary accesses; `units` mirrors prof.tree.children (one list of
+    expected entries per top-level statement)"""
     from lark import Token, Tree
 
     from dissect.cobaltstrike import c2profile
 
+    E = lambda path, kw, val: {"path": path, "kw": kw, "args": [f'"{val}"'], "mode": "keyed"}  # noqa: E731
     prof = c2profile.C2Profile.from_text('stage { set userwx "false"; }')
-    entries = [{"path": ["stage"], "kw": "userwx", "args": ['"false"'], "mode": "keyed"}]
+    units = [("stage", [E(["stage"], "userwx", "false")])]
     n = 0
     for step in hist:
         n += 1
@@ -229,20 +232,29 @@ def one_history(hist):
             m = step["m"]
             if m == "set_option":
                 prof.set_option("sleeptime", str(n))
-                entries.append({"path": [], "kw": "sleeptime", "args": [f'"{n}"'], "mode": "keyed"})
+                units.append(("option", [E([], "sleeptime", n)]))
             elif m == "set_block":
                 prof.set_config_block("http_get", c2profile.HttpGetBlock(uri=f"/u{n}"))
-                entries.append({"path": ["http-get"], "kw": "uri", "args": [f'"/u{n}"'], "mode": "keyed"})
+                units.append(("http_get", [E(["http-get"], "uri", f"/u{n}")]))
             elif m == "tree_edit":
                 prof.tree.children.append(Tree("option", [Token("OPTION", "jitter"), Tree("string", [Token("STRING", f'"{n}"')])]))
-                entries.append({"path": [], "kw": "jitter", "args": [f'"{n}"'], "mode": "keyed"})
+                units.append(("option", [E([], "jitter", n)]))
+            elif m == "remove_last":
+                if len(prof.tree.children) > 1:
+                    prof.tree.children.pop()
+                    units.pop()
+            elif m == "replace_tree":
+                other = c2profile.C2Profile.from_text(f'set jitter "{n}"; stage {{ set userwx "true"; }}')
+                prof.tree = other.tree
+                units = [("option", [E([], "jitter", n)]), ("stage", [E(["stage"], "userwx", "true")])]
             else:  # child_edit: a statement added inside a block that is already part of the profile
-                stage = next(c for c in prof.tree.children if c.data == "stage")
-                stage.children.append(Tree("cleanup", [Tree("string", [Token("STRING", f'"{n}"')])]))
-                # position: the stage block is the first statement of the profile
-                idx = max(i for i, e in enumerate(entries) if e["path"] == ["stage"])
-                entries.insert(idx + 1, {"path": ["stage"], "kw": "cleanup", "args": [f'"{n}"'], "mode": "keyed"})
+                idx = next((i for i, c in enumerate(prof.tree.children) if c.data == "stage"), None)
+                if idx is None:
+                    continue
+                prof.tree.children[idx].children.append(Tree("cleanup", [Tree("string", [Token("STRING", f'"{n}"')])]))
+                units[idx][1].append(E(["stage"], "cleanup", n))
         else:
+            entries = [e for _k, es in units for e in es]
             o = core.guarded(lambda: copy.deepcopy(prof.as_dict()), seconds=60)
             if o[0] != "ok":
                 return [("exception", str(o)[:200], n)]
